@@ -58,46 +58,74 @@ REFMODE = [
 
 def reference_mode(ctx):
     """run() with the reference peers in process (the grpc-go peers add permutations under marked names): the outcomes
-    must be exactly the permutations that the declarative selection (GlobDecl.Selected) picks among all names."""
+    must be exactly the permutations that the declarative selection (GlobDecl.Selected) picks among all names, and none
+    of them may be a setup failure - also when every server has to share one port with --max-servers 1."""
     rnd = random.Random(ctx.seed)
-    scns = [dict(config=REFMODE_CONFIG, run=r, skip=s) for r, s in (REFMODE if not ctx.quick else REFMODE[3:] + rnd.sample(REFMODE[:3], 2))]
-    scnp, outp = os.path.join(ctx.build, "c05ref.scn"), os.path.join(ctx.build, "c05ref.out")
-    vf.write_ndjson(scnp, scns)
+    picks = REFMODE if not ctx.quick else REFMODE[3:] + rnd.sample(REFMODE[:3], 2)
+    scns = [dict(config=REFMODE_CONFIG, run=r, skip=s, fixedPort=False) for r, s in picks]
+    scns.append(dict(config=REFMODE_CONFIG, run=["Basic/**/unary/**"], skip=[], fixedPort=True))
     binp = ctx.go_test_bin("internal/app/connectconformance", ["c05", "peers"], race=True)
-    p = ctx.run_harness(binp, "TestVerifC05RefMode", env=dict(VERIF_SCN=scnp, VERIF_OUT=outp), timeout=3000, check=False)
-    if "WARNING: DATA RACE" in p.stdout:
-        j = p.stdout.index("WARNING: DATA RACE")
-        ctx.candidate(dict(kind="race", leg="refmode"), "data race reported by the Go race detector:\n" + p.stdout[j:j + 3000], dict(kind="race", report=p.stdout[j:j + 3000]))
-        return
-    if p.returncode != 0:
-        raise vf.Machinery("refmode harness failed rc=%d\n%s" % (p.returncode, p.stdout[-3000:]))
-    recs = vf.read_ndjson(outp)
     split = lambda names: [n.split("/") for n in names]
-    lines = []
-    for r in recs:
-        if r.get("err", "").startswith("harness"):
-            raise vf.Machinery(r["err"])
-        if r.get("hang"):
-            ctx.candidate(dict(kind="hang", leg="refmode"), "reference-mode run did not end within 4 minutes: run=%s skip=%s" % (r["run"], r["skip"]), r)
-            continue
-        if r.get("err"):
-            # patterns are chosen so that each matches something; an error here is itself a wrong selection
-            ctx.candidate(dict(kind="refmode-error", run=r["scn"]["run"], skip=r["scn"]["skip"]), "reference-mode run failed: %s (run=%s skip=%s)" % (r["err"], r["run"], r["skip"]), r)
-            continue
-        lines.append((r, dict(names=split(r["names"]), run=split(r["run"]), skip=split(r["skip"]), outcomes=split(r["outcomes"]))))
-    trp = os.path.join(ctx.build, "c05ref.trace")
-    vf.write_ndjson(trp, [x[1] for x in lines])
-    tr = ctx.tlc("Trace_Select", "Trace_Select.cfg", workers=1, env=dict(VERIF_TRACE=trp), timeout=1800, heap="4g")
-    if lines and not tr.lines("CONSUMED "):
-        raise vf.Machinery("Trace_Select did not consume the trace")
-    for ln in tr.lines("REJECT "):
-        r = lines[int(ln) - 1][0]
-        ctx.candidate(dict(kind="selection", run=r["scn"]["run"], skip=r["scn"]["skip"]),
-                      "reference mode: the permutations that got an outcome are not the selected ones: run=%s skip=%s, %d names, %d outcomes, e.g. %s" % (
-                          r["run"], r["skip"], len(r["names"]), len(r["outcomes"]), r["outcomes"][:2]), r)
-    ctx.cov["traces_validated_against_impl"] += len(lines)
-    ctx.cov["evaluations"] += sum(len(x[0]["outcomes"]) for x in lines)
-    ctx.notes["reference_mode_leg"] = dict(runs=len(lines), names=len(lines[0][0]["names"]) if lines else 0)
+
+    def execute(tag, todo):
+        scnp, outp = os.path.join(ctx.build, "c05ref.%s.scn" % tag), os.path.join(ctx.build, "c05ref.%s.out" % tag)
+        vf.write_ndjson(scnp, todo)
+        p = ctx.run_harness(binp, "TestVerifC05RefMode", env=dict(VERIF_SCN=scnp, VERIF_OUT=outp), timeout=3000, check=False)
+        if "WARNING: DATA RACE" in p.stdout:
+            j = p.stdout.index("WARNING: DATA RACE")
+            ctx.candidate(dict(kind="race", leg="refmode"), "data race reported by the Go race detector:\n" + p.stdout[j:j + 3000], dict(kind="race", report=p.stdout[j:j + 3000]))
+            return None
+        if p.returncode != 0:
+            raise vf.Machinery("refmode harness failed rc=%d\n%s" % (p.returncode, p.stdout[-3000:]))
+        recs = vf.read_ndjson(outp)
+        bad, lines = {}, []
+        for i, r in enumerate(recs):
+            if r.get("err", "").startswith("harness"):
+                raise vf.Machinery(r["err"])
+            if r.get("hang"):
+                bad[i] = ("hang", "reference-mode run did not end within 4 minutes")
+            elif r.get("err"):
+                # patterns are chosen so that each matches something; an error here is itself a wrong selection
+                bad[i] = ("refmode-error", "reference-mode run failed: %s" % r["err"])
+            else:
+                lines.append((i, dict(names=split(r["names"]), run=split(r["run"]), skip=split(r["skip"]), outcomes=split(r["outcomes"]), setup=split(r["setup"]))))
+        trp = os.path.join(ctx.build, "c05ref.%s.trace" % tag)
+        vf.write_ndjson(trp, [x[1] for x in lines])
+        tr = ctx.tlc("Trace_Select", "Trace_Select.cfg", workers=1, env=dict(VERIF_TRACE=trp), timeout=1800, heap="4g")
+        if lines and not tr.lines("CONSUMED "):
+            raise vf.Machinery("Trace_Select did not consume the trace")
+        for ln in tr.lines("REJECT "):
+            i = lines[int(ln) - 1][0]
+            r = recs[i]
+            bad[i] = ("selection", "the permutations that got an outcome are not exactly the selected ones, or some are setup failures: %d names, %d outcomes (e.g. %s), %d setup failures (e.g. %s), port %s" % (
+                len(r["names"]), len(r["outcomes"]), r["outcomes"][:2], len(r["setup"]), r["setup"][:1], r.get("port")))
+        return recs, bad, len(lines)
+
+    res = execute("first", scns)
+    if res is None:
+        return
+    recs, bad, nlines = res
+    counts = {i: 1 for i in bad}
+    for rnd_i in range(2):
+        todo = sorted(i for i in bad if counts[i] == rnd_i + 1)
+        if not todo:
+            break
+        again = execute("again%d" % rnd_i, [scns[i] for i in todo])
+        if again is None:
+            return
+        for j, i in enumerate(todo):
+            if j in again[1]:
+                counts[i] += 1
+    for i, (kind, what) in sorted(bad.items()):
+        if counts[i] >= 3:
+            sc = scns[i]
+            ctx.candidate(dict(kind=kind, leg="refmode", run=sc["run"], skip=sc["skip"], fixedPort=sc["fixedPort"]),
+                          "reference mode (run=%s skip=%s fixedPort=%s; 3 of 3 executions): %s" % (sc["run"], sc["skip"], sc["fixedPort"], what), dict(leg="refmode", scn=sc, record=recs[i]))
+        else:
+            ctx.notes["refmode_unreproduced"] = ctx.notes.get("refmode_unreproduced", 0) + 1
+    ctx.cov["traces_validated_against_impl"] += nlines
+    ctx.cov["evaluations"] += sum(len(r.get("outcomes", [])) for r in recs)
+    ctx.notes["reference_mode_leg"] = dict(runs=len(recs), names=len(recs[0]["names"]) if recs else 0)
 
 
 def client_answers(ctx):
